@@ -45,7 +45,10 @@
 //
 // # Renderers
 //
-// RenderYAML marshals ordered yaml.MapSlice values with gopkg.in/yaml.v2;
+// RenderYAML marshals ordered yaml.MapSlice values with gopkg.in/yaml.v2
+// (RenderYAMLStyled additionally writes the string values named in
+// Layout.YAMLStyles the way people do: block scalars, multi-line plain and
+// quoted scalars, kept only where yaml.v2 reads them back as intended);
 // RenderHCL builds the file with hclwrite (quoted strings escaped by hclwrite,
 // heredocs and templates assembled from tokens), block types and labels as
 // config.AmmoHCL expects them.
